@@ -1,11 +1,13 @@
 #!/bin/sh
-# round 2: /tmp/mut/out2/<Cxx>/{patch,demo,meta}{1,2} -> seeded/<Cxx>-{3,4}
+# tools/import_round.sh <round> <Cxx>...   : /tmp/mut/out<round>/<Cxx>/{patch,demo,meta}{1,2} -> seeded/<Cxx>-{2r-1,2r}; runs full and deductive-only checks
 cd "$(dirname "$0")/.."
+r=$1; shift
+src_root=/tmp/mut/out$r; [ "$r" = 1 ] && src_root=/tmp/mut/out
 for p in "$@"; do
   for n in 1 2; do
-    src=/tmp/mut/out2/$p
+    src=$src_root/$p
     [ -f $src/patch$n.diff ] || continue
-    d=seeded/$p-$((n+2))
+    d=seeded/$p-$((2*(r-1)+n))
     [ -f $d/result.json ] && continue
     mkdir -p $d
     cp $src/patch$n.diff $d/patch.diff; cp $src/demo$n.py $d/demo.py; [ -f $d/meta.json ] || cp $src/meta$n.json $d/meta.json
